@@ -105,7 +105,7 @@ Proof.
   - unfold add_shacl. now rewrite dmem_dset.
 Qed.
 
-(** ** (b) histories inside [C18_dom] *)
+(** ** (b) every well-formed history (the code after the four repairs) *)
 
 Section ApiProofs.
   Variables args tcd prof shapes thr : Type.
@@ -128,15 +128,13 @@ Section ApiProofs.
   Hypothesis shacl_ignores_examples :
     forall a d d' s, st_shacl_text a d (st_add_examples a d' s) = st_shacl_text a d s.
 
-  Notation shaperT := (shaper args tcd prof shapes).
-  Notation stateT := (state args tcd prof shapes).
+  Notation shaperT := (shaper args tcd prof shapes thr).
+  Notation stateT := (state args tcd prof shapes thr).
   Notation opT := (op args thr).
-  Notation stepM := (step args tcd prof shapes thr a_shapes_ns a_examples st_track st_reader_ns st_profile st_shex
-                          st_add_examples st_shexc_lines st_shacl_text st_profile_text rand fuel).
   Notation run_fromM := (run_from args tcd prof shapes thr a_shapes_ns a_examples st_track st_reader_ns st_profile
-                                  st_shex st_add_examples st_shexc_lines st_shacl_text st_profile_text rand fuel).
+                                  st_shex st_add_examples st_shexc_lines st_shacl_text st_profile_text rand fuel thr_eqb).
   Notation runM := (run args tcd prof shapes thr a_shapes_ns a_examples st_track st_reader_ns st_profile
-                        st_shex st_add_examples st_shexc_lines st_shacl_text st_profile_text rand fuel).
+                        st_shex st_add_examples st_shexc_lines st_shacl_text st_profile_text rand fuel thr_eqb).
   Notation spec_fromM := (spec_from args tcd prof shapes thr a_shapes_ns a_examples st_track st_reader_ns st_profile
                                     st_shex st_add_examples st_shexc_lines st_shacl_text st_profile_text rand fuel).
   Notation specM := (spec args tcd prof shapes thr a_shapes_ns a_examples st_track st_reader_ns st_profile
@@ -145,75 +143,41 @@ Section ApiProofs.
                                     st_shex st_add_examples st_shexc_lines st_shacl_text rand fuel).
   Notation pure_profileM := (pure_profile args tcd prof a_shapes_ns st_track st_reader_ns st_profile
                                           st_profile_text rand fuel).
-  Notation dom_fromM := (dom_from args thr a_examples thr_eqb).
   Notation mutatingM := (mutating args a_examples).
-  Notation trackT := (track thr).
+  Notation ensure_tcdM := (ensure_tcd args tcd prof shapes thr st_track st_reader_ns).
+  Notation ensure_profM := (ensure_prof args tcd prof shapes thr st_reader_ns st_profile).
+  Notation ensure_shapesM := (ensure_shapes args tcd prof shapes thr st_shex thr_eqb).
 
-  (** what the slots of a Shaper built from [(a, d0)] hold, and what its (unshared)
-      dictionary holds, as a function of the constructor arguments and of the
-      first call's threshold only *)
-  Definition shaper_ok (a : args) (d0 : nsd) (tr : trackT) (s : shaperT) (d : nsd) : Prop :=
-    sh_args s = a /\ tr_mut tr = mutatingM a /\
+  (** what the slots and the private dictionary of a Shaper built from [(a, d0)] hold: a
+      function of the constructor arguments and of the memoised threshold only *)
+  Definition shaper_ok (a : args) (d0 : nsd) (s : shaperT) : Prop :=
+    sh_args s = a /\
     exists d1, ctor_dict args a_shapes_ns rand fuel a d0 = Some d1 /\
     let tc := st_track a d1 in
     let d2 := st_reader_ns a d1 in
     let pr := st_profile a d2 tc in
     let d3 := st_reader_ns a d2 in
     match sh_tcd s, sh_prof s, sh_shapes s with
-    | None, None, None => d = d1 /\ tr_thr tr = None /\ tr_shacl tr = false /\ tr_shexc tr = 0
-    | Some tc', None, None => tc' = tc /\ d = d2 /\ tr_thr tr = None /\ tr_shacl tr = false /\ tr_shexc tr = 0
-    | Some tc', Some pr', None =>
-      tc' = tc /\ pr' = pr /\ d = d3 /\ tr_thr tr = None /\ tr_shacl tr = false /\ tr_shexc tr = 0
-    | Some tc', Some pr', Some sp =>
-      tc' = tc /\ pr' = pr /\
-      exists t0, tr_thr tr = Some t0 /\
-                 d = (if tr_shacl tr then add_shacl d3 else d3) /\
-                 sp = (if tr_mut tr && negb (Nat.eqb (tr_shexc tr) 0)
-                       then st_add_examples a d3 (st_shex a d3 pr t0) else st_shex a d3 pr t0) /\
-                 (tr_mut tr = true -> tr_shexc tr <= 1)
+    | None, None, None => sh_dict s = d1
+    | Some tc', None, None => tc' = tc /\ sh_dict s = d2
+    | Some tc', Some pr', None => tc' = tc /\ pr' = pr /\ sh_dict s = d3
+    | Some tc', Some pr', Some m =>
+      tc' = tc /\ pr' = pr /\ sh_dict s = d3 /\
+      m_shapes m = (if m_annotated m then st_add_examples a d3 (st_shex a d3 pr (m_thr m))
+                    else st_shex a d3 pr (m_thr m)) /\
+      (m_annotated m = true -> mutatingM a = true)
     | _, _, _ => False
     end.
 
-  Definition inv (ctors : list (args * nsd)) (trs : list trackT) (st : stateT) : Prop :=
-    dead st = false /\
+  Definition inv (origs : list nsd) (ctors : list (args * nsd)) (st : stateT) : Prop :=
+    dead st = false /\ cdicts st = origs /\
     List.length (shapers st) = List.length ctors /\
-    List.length trs = List.length ctors /\
-    List.length (store st) = List.length ctors /\
     forall i a d0, nth_error ctors i = Some (a, d0) ->
-      exists tr s d, nth_error trs i = Some tr /\ nth_error (shapers st) i = Some s /\
-                     nth_error (store st) i = Some d /\ sh_ns s = i /\ shaper_ok a d0 tr s d.
+      exists s, nth_error (shapers st) i = Some s /\ shaper_ok a d0 s.
 
   Lemma prio_free_find d : prio_free d = true -> exists p, find_prefix rand fuel d = Some p.
   Proof.
     unfold prio_free, find_prefix. destruct (first_free _ _) as [p|]; [eauto | discriminate].
-  Qed.
-
-  Lemma inv_lookup ctors trs st i tr :
-    inv ctors trs st -> nth_error trs i = Some tr ->
-    exists a d0 s d, nth_error ctors i = Some (a, d0) /\ nth_error (shapers st) i = Some s /\
-                     nth_error (store st) i = Some d /\ sh_ns s = i /\ shaper_ok a d0 tr s d.
-  Proof.
-    intros (Hd & Hl1 & Hl2 & Hl3 & Hall) Htr.
-    pose proof (nth_error_Some_lt _ _ _ Htr) as Hlt. rewrite Hl2 in Hlt.
-    destruct (nth_error ctors i) as [[a d0]|] eqn:Ec; [|apply nth_error_None in Ec; lia].
-    destruct (Hall i a d0 Ec) as (tr' & s & d & H1 & H2 & H3 & H4 & H5).
-    rewrite Htr in H1. inversion H1; subst tr'. exists a, d0, s, d. auto.
-  Qed.
-
-  (** updating Shaper [i] (slots, dictionary, tracking record) preserves the invariant *)
-  Lemma inv_update ctors trs st i a d0 tr' s' d' :
-    inv ctors trs st -> nth_error ctors i = Some (a, d0) -> sh_ns s' = i -> shaper_ok a d0 tr' s' d' ->
-    inv ctors (set_nth i tr' trs) (mkState (set_nth i d' (store st)) (set_nth i s' (shapers st)) false).
-  Proof.
-    intros (Hd & Hl1 & Hl2 & Hl3 & Hall) Hc Hns Hok.
-    pose proof (nth_error_Some_lt _ _ _ Hc) as Hlt.
-    split; [reflexivity|]. cbn [shapers store]. rewrite !set_nth_length.
-    repeat split; auto.
-    intros j a' d0' Hj. destruct (Nat.eq_dec i j) as [->|Hne].
-    - rewrite Hc in Hj. inversion Hj; subst a' d0'.
-      exists tr', s', d'. rewrite !nth_error_set_nth_same by lia. auto.
-    - destruct (Hall j a' d0' Hj) as (tr & s & d & H1 & H2 & H3 & H4 & H5).
-      exists tr, s, d. rewrite !nth_error_set_nth_other by auto. auto.
   Qed.
 
   Lemma emit_lines_concat k lines :
@@ -225,221 +189,257 @@ Section ApiProofs.
   Lemma emit_text_channel k t : emit_text k t = on_channel k (Some t).
   Proof. destruct k; reflexivity. Qed.
 
-  (** one [shex_graph] call on a Shaper satisfying the invariant *)
-  Lemma shex_on_ok a d0 tr s d f k t :
-    shaper_ok a d0 tr s d -> call_ok thr thr_eqb tr f t = true ->
-    let '(s', d', o) := shex_on args tcd prof shapes thr a_examples st_track st_reader_ns st_profile st_shex
-                                st_add_examples st_shexc_lines st_shacl_text s d f k t in
-    sh_ns s' = sh_ns s /\ shaper_ok a d0 (track_call thr tr f t) s' d' /\ o = on_channel k (pure_shexM a d0 t f).
+  (** after the three [if ... is None] steps of [shex_graph] all slots are filled, the memoised
+      threshold is the call's, and the invariant still holds *)
+  Lemma stages_ok a d0 s t :
+    shaper_ok a d0 s ->
+    let s3 := ensure_shapesM (ensure_profM (ensure_tcdM s)) t in
+    shaper_ok a d0 s3 /\ sh_args s3 = a /\
+    exists d1 m, ctor_dict args a_shapes_ns rand fuel a d0 = Some d1 /\
+                 sh_shapes s3 = Some m /\ m_thr m = t /\
+                 sh_dict s3 = st_reader_ns a (st_reader_ns a d1) /\
+                 m_shapes m = (let d3 := st_reader_ns a (st_reader_ns a d1) in
+                               let pr := st_profile a (st_reader_ns a d1) (st_track a d1) in
+                               if m_annotated m then st_add_examples a d3 (st_shex a d3 pr t) else st_shex a d3 pr t) /\
+                 (m_annotated m = true -> mutatingM a = true).
   Proof.
-    intros (Ha & Hm & d1 & Hd1 & Hph) Hcall.
-    unfold pure_shex, pure_stages. rewrite Hd1.
-    unfold call_ok in Hcall. apply andb_true_iff in Hcall as [Hthr Hfmt].
-    unfold shex_on, ensure_tcd, ensure_prof, ensure_shapes.
-    destruct s as [sa sn stc spr ssh]. cbn [sh_args sh_ns sh_tcd sh_prof sh_shapes] in *. subst sa.
+    intros (Ha & d1 & Hd1 & Hph).
+    destruct s as [sa sd stc spr ssh]. cbn [sh_args sh_dict sh_tcd sh_prof sh_shapes] in *. subst sa.
     cbn zeta in Hph.
-    destruct tr as [tthr tshacl tshexc tmut]. cbn [tr_thr tr_shacl tr_shexc tr_mut] in *.
-    unfold mutating in Hm. subst tmut.
-    unfold track_call, shaper_ok, mutating. cbn [tr_thr tr_shacl tr_shexc tr_mut].
-    destruct stc as [tc'|], spr as [pr'|], ssh as [sp|]; try contradiction;
-      cbn [sh_shapes sh_args sh_ns sh_tcd sh_prof].
-    - (* all slots filled *)
-      destruct Hph as (-> & -> & t0 & Ht0 & Hd & Hsp & Hle). subst tthr.
-      apply thr_eqb_eq in Hthr. subst t0.
-      destruct f; cbn [sh_shapes sh_args sh_ns sh_tcd sh_prof].
-      + (* ShExC *)
-        apply andb_true_iff in Hfmt as [Hns Hex]. apply negb_true_iff in Hns. subst tshacl. subst d.
-        assert (Hsp' : sp = st_shex a (st_reader_ns a (st_reader_ns a d1))
-                                 (st_profile a (st_reader_ns a d1) (st_track a d1)) t).
-        { destruct (mem_opt_str (a_examples a) c18_examples_modes_mutating); cbn in Hex, Hsp.
-          - apply Nat.eqb_eq in Hex. subst tshexc. exact Hsp.
-          - exact Hsp. }
-        clear Hsp. subst sp.
-        split; [reflexivity|]. split.
-        * split; [reflexivity|]. split; [reflexivity|].
-          exists d1. split; [exact Hd1|]. cbn zeta. split; [reflexivity|]. split; [reflexivity|].
-          exists t. split; [reflexivity|]. split; [reflexivity|].
-          destruct (mem_opt_str (a_examples a) c18_examples_modes_mutating); cbn.
-          -- cbn in Hex. apply Nat.eqb_eq in Hex. subst tshexc. split; [reflexivity | intros _; lia].
-          -- split; [reflexivity | discriminate].
-        * rewrite emit_lines_concat. reflexivity.
-      + (* SHACL *)
-        split; [reflexivity|]. split.
-        * split; [reflexivity|]. split; [reflexivity|].
-          exists d1. split; [exact Hd1|]. cbn zeta. split; [reflexivity|]. split; [reflexivity|].
-          exists t. split; [reflexivity|]. split.
-          -- subst d. destruct tshacl; [apply add_shacl_idem | reflexivity].
-          -- split; [exact Hsp | exact Hle].
-        * rewrite emit_text_channel. f_equal. f_equal.
-          assert (Hdd : add_shacl d = add_shacl (st_reader_ns a (st_reader_ns a d1))).
-          { subst d. destruct tshacl; [apply add_shacl_idem | reflexivity]. }
-          rewrite Hdd. subst sp.
-          destruct (mem_opt_str (a_examples a) c18_examples_modes_mutating && negb (tshexc =? 0));
-            [apply shacl_ignores_examples | reflexivity].
-    - (* tracker and profiler done, no shapes yet *)
-      destruct Hph as (-> & -> & -> & -> & -> & ->).
-      destruct f; cbn [sh_shapes sh_args sh_ns sh_tcd sh_prof].
-      + split; [reflexivity|]. split; [|rewrite emit_lines_concat; reflexivity].
-        split; [reflexivity|]. split; [reflexivity|].
-        exists d1. split; [exact Hd1|]. cbn zeta. split; [reflexivity|]. split; [reflexivity|].
-        exists t. split; [reflexivity|]. split; [reflexivity|]. cbn. rewrite andb_true_r.
-        split; [reflexivity | intros _; lia].
-      + split; [reflexivity|]. split; [|rewrite emit_text_channel; reflexivity].
-        split; [reflexivity|]. split; [reflexivity|].
-        exists d1. split; [exact Hd1|]. cbn zeta. split; [reflexivity|]. split; [reflexivity|].
-        exists t. split; [reflexivity|]. split; [reflexivity|]. cbn. rewrite andb_false_r.
-        split; [reflexivity | intros _; lia].
-    - (* tracker done only *)
-      destruct Hph as (-> & -> & -> & -> & ->).
-      destruct f; cbn [sh_shapes sh_args sh_ns sh_tcd sh_prof].
-      + split; [reflexivity|]. split; [|rewrite emit_lines_concat; reflexivity].
-        split; [reflexivity|]. split; [reflexivity|].
-        exists d1. split; [exact Hd1|]. cbn zeta. split; [reflexivity|]. split; [reflexivity|].
-        exists t. split; [reflexivity|]. split; [reflexivity|]. cbn. rewrite andb_true_r.
-        split; [reflexivity | intros _; lia].
-      + split; [reflexivity|]. split; [|rewrite emit_text_channel; reflexivity].
-        split; [reflexivity|]. split; [reflexivity|].
-        exists d1. split; [exact Hd1|]. cbn zeta. split; [reflexivity|]. split; [reflexivity|].
-        exists t. split; [reflexivity|]. split; [reflexivity|]. cbn. rewrite andb_false_r.
-        split; [reflexivity | intros _; lia].
-    - (* fresh *)
-      destruct Hph as (-> & -> & -> & ->).
-      destruct f; cbn [sh_shapes sh_args sh_ns sh_tcd sh_prof].
-      + split; [reflexivity|]. split; [|rewrite emit_lines_concat; reflexivity].
-        split; [reflexivity|]. split; [reflexivity|].
-        exists d1. split; [exact Hd1|]. cbn zeta. split; [reflexivity|]. split; [reflexivity|].
-        exists t. split; [reflexivity|]. split; [reflexivity|]. cbn. rewrite andb_true_r.
-        split; [reflexivity | intros _; lia].
-      + split; [reflexivity|]. split; [|rewrite emit_text_channel; reflexivity].
-        split; [reflexivity|]. split; [reflexivity|].
-        exists d1. split; [exact Hd1|]. cbn zeta. split; [reflexivity|]. split; [reflexivity|].
-        exists t. split; [reflexivity|]. split; [reflexivity|]. cbn. rewrite andb_false_r.
-        split; [reflexivity | intros _; lia].
+    unfold ensure_shapes, ensure_prof, ensure_tcd.
+    destruct stc as [tc'|], spr as [pr'|], ssh as [m|]; try contradiction;
+      cbn [sh_args sh_dict sh_tcd sh_prof sh_shapes].
+    - destruct Hph as (-> & -> & -> & Hm & Hann).
+      destruct (thr_eqb (m_thr m) t) eqn:E.
+      + apply thr_eqb_eq in E. cbn [sh_args sh_dict sh_tcd sh_prof sh_shapes].
+        split; [|split; [reflexivity|]].
+        * split; [reflexivity|]. exists d1. split; [exact Hd1|]. cbn zeta.
+          cbn [sh_args sh_dict sh_tcd sh_prof sh_shapes]. repeat split; auto.
+        * exists d1, m. rewrite <- E. repeat split; auto.
+      + cbn [sh_args sh_dict sh_tcd sh_prof sh_shapes].
+        split; [|split; [reflexivity|]].
+        * split; [reflexivity|]. exists d1. split; [exact Hd1|]. cbn zeta.
+          cbn [sh_args sh_dict sh_tcd sh_prof sh_shapes m_thr m_shapes m_annotated].
+          repeat split; auto. discriminate.
+        * eexists d1, _. split; [exact Hd1|]. split; [reflexivity|].
+          cbn [m_thr m_shapes m_annotated]. repeat split; auto. discriminate.
+    - destruct Hph as (-> & -> & ->).
+      cbn [sh_args sh_dict sh_tcd sh_prof sh_shapes].
+      split; [|split; [reflexivity|]].
+      + split; [reflexivity|]. exists d1. split; [exact Hd1|]. cbn zeta.
+        cbn [sh_args sh_dict sh_tcd sh_prof sh_shapes m_thr m_shapes m_annotated].
+        repeat split; auto. discriminate.
+      + eexists d1, _. split; [exact Hd1|]. split; [reflexivity|].
+        cbn [m_thr m_shapes m_annotated]. repeat split; auto. discriminate.
+    - destruct Hph as (-> & ->).
+      cbn [sh_args sh_dict sh_tcd sh_prof sh_shapes].
+      split; [|split; [reflexivity|]].
+      + split; [reflexivity|]. exists d1. split; [exact Hd1|]. cbn zeta.
+        cbn [sh_args sh_dict sh_tcd sh_prof sh_shapes m_thr m_shapes m_annotated].
+        repeat split; auto. discriminate.
+      + eexists d1, _. split; [exact Hd1|]. split; [reflexivity|].
+        cbn [m_thr m_shapes m_annotated]. repeat split; auto. discriminate.
+    - subst sd.
+      cbn [sh_args sh_dict sh_tcd sh_prof sh_shapes].
+      split; [|split; [reflexivity|]].
+      + split; [reflexivity|]. exists d1. split; [exact Hd1|]. cbn zeta.
+        cbn [sh_args sh_dict sh_tcd sh_prof sh_shapes m_thr m_shapes m_annotated].
+        repeat split; auto. discriminate.
+      + eexists d1, _. split; [exact Hd1|]. split; [reflexivity|].
+        cbn [m_thr m_shapes m_annotated]. repeat split; auto. discriminate.
+  Qed.
+
+  (** one [shex_graph] call *)
+  Lemma shex_on_ok a d0 s f k t :
+    shaper_ok a d0 s ->
+    let '(s', o) := shex_on args tcd prof shapes thr a_examples st_track st_reader_ns st_profile st_shex
+                            st_add_examples st_shexc_lines st_shacl_text thr_eqb s f k t in
+    shaper_ok a d0 s' /\ o = on_channel k (pure_shexM a d0 t f).
+  Proof.
+    intros Hok. pose proof Hok as (Ha & _).
+    pose proof (stages_ok a d0 s t Hok) as Hst. cbn zeta in Hst.
+    unfold shex_on.
+    destruct Hst as (Hok3 & Ha3 & d1 & m & Hd1 & Hm & Hthr & Hd3 & Hshp & Hann).
+    set (s3 := ensure_shapesM (ensure_profM (ensure_tcdM s)) t) in *.
+    rewrite Hm. unfold pure_shex, pure_stages. rewrite Hd1. cbn zeta in Hshp.
+    rewrite Ha.
+    destruct f.
+    - (* ShExC *)
+      fold (mutatingM a).
+      destruct (mutatingM a) eqn:Emut; cbn [andb].
+      + destruct (m_annotated m) eqn:Eann; cbn [negb].
+        * split.
+          -- destruct Hok3 as (H1 & dd & H2 & H3). destruct s3 as [xa xd xt xp xs].
+             cbn [sh_args sh_dict sh_tcd sh_prof sh_shapes] in *. subst xs. exact (conj H1 (ex_intro _ dd (conj H2 H3))).
+          -- rewrite emit_lines_concat, Hd3, Hshp. reflexivity.
+        * split.
+          -- destruct Hok3 as (H1 & dd & H2 & H3). rewrite Hd1 in H2. inversion H2; subst dd.
+             destruct s3 as [xa xd xt xp xs]. cbn [sh_args sh_dict sh_tcd sh_prof sh_shapes] in *. subst xs.
+             cbn zeta in H3. destruct xt as [tc'|], xp as [pr'|]; try contradiction.
+             destruct H3 as (-> & -> & Hxd & _ & _).
+             split; [exact H1|]. exists d1. split; [exact Hd1|]. cbn zeta.
+             cbn [sh_args sh_dict sh_tcd sh_prof sh_shapes m_thr m_shapes m_annotated].
+             repeat split; auto. rewrite Hshp, Hthr, Hd3. reflexivity.
+          -- rewrite emit_lines_concat. cbn [m_shapes]. rewrite Hd3, Hshp. reflexivity.
+      + assert (Eann : m_annotated m = false).
+        { destruct (m_annotated m); [specialize (Hann eq_refl); congruence | reflexivity]. }
+        rewrite Eann in Hshp. split.
+        * destruct Hok3 as (H1 & dd & H2 & H3). destruct s3 as [xa xd xt xp xs].
+          cbn [sh_args sh_dict sh_tcd sh_prof sh_shapes] in *. subst xs. exact (conj H1 (ex_intro _ dd (conj H2 H3))).
+        * rewrite emit_lines_concat, Hd3, Hshp. reflexivity.
+    - (* SHACL *)
+      split; [exact Hok3|].
+      rewrite emit_text_channel, Hd3, Hshp. f_equal. f_equal.
+      destruct (m_annotated m); [apply shacl_ignores_examples | reflexivity].
   Qed.
 
   (** one [profile_graph] call *)
-  Lemma profile_on_ok a d0 tr s d k :
-    shaper_ok a d0 tr s d ->
-    let '(s', d', o) := profile_on args tcd prof shapes st_track st_reader_ns st_profile st_profile_text s d k in
-    sh_ns s' = sh_ns s /\ shaper_ok a d0 tr s' d' /\ o = on_channel k (pure_profileM a d0).
+  Lemma profile_on_ok a d0 s k :
+    shaper_ok a d0 s ->
+    let '(s', o) := profile_on args tcd prof shapes thr st_track st_reader_ns st_profile st_profile_text s k in
+    shaper_ok a d0 s' /\ o = on_channel k (pure_profileM a d0).
   Proof.
-    intros (Ha & Hm & d1 & Hd1 & Hph).
+    intros (Ha & d1 & Hd1 & Hph).
     unfold pure_profile, pure_stages. rewrite Hd1.
     unfold profile_on, ensure_tcd, ensure_prof.
-    destruct s as [sa sn stc spr ssh]. cbn [sh_args sh_ns sh_tcd sh_prof sh_shapes] in *. subst sa.
+    destruct s as [sa sd stc spr ssh]. cbn [sh_args sh_dict sh_tcd sh_prof sh_shapes] in *. subst sa.
     cbn zeta in Hph.
-    destruct stc as [tc'|], spr as [pr'|], ssh as [sp|]; try contradiction;
-      cbn [sh_shapes sh_args sh_ns sh_tcd sh_prof].
+    destruct stc as [tc'|], spr as [pr'|], ssh as [m|]; try contradiction;
+      cbn [sh_args sh_dict sh_tcd sh_prof sh_shapes].
     - destruct Hph as (-> & -> & Hrest).
-      split; [reflexivity|]. split; [|now rewrite emit_text_channel].
-      unfold shaper_ok. cbn [sh_args sh_tcd sh_prof sh_shapes]. repeat split; auto.
-      exists d1. split; [exact Hd1|]. cbn zeta. auto.
-    - destruct Hph as (-> & -> & Hrest).
-      split; [reflexivity|]. split; [|now rewrite emit_text_channel].
-      unfold shaper_ok. cbn [sh_args sh_tcd sh_prof sh_shapes]. repeat split; auto.
-      exists d1. split; [exact Hd1|]. cbn zeta. auto.
-    - destruct Hph as (-> & -> & Hrest).
-      split; [reflexivity|]. split; [|now rewrite emit_text_channel].
-      unfold shaper_ok. cbn [sh_args sh_tcd sh_prof sh_shapes]. repeat split; auto.
-      exists d1. split; [exact Hd1|]. cbn zeta. auto.
-    - destruct Hph as (-> & Hrest).
-      split; [reflexivity|]. split; [|now rewrite emit_text_channel].
-      unfold shaper_ok. cbn [sh_args sh_tcd sh_prof sh_shapes]. repeat split; auto.
-      exists d1. split; [exact Hd1|]. cbn zeta. auto.
+      split; [|now rewrite emit_text_channel].
+      split; [reflexivity|]. exists d1. split; [exact Hd1|]. cbn zeta.
+      cbn [sh_args sh_dict sh_tcd sh_prof sh_shapes]. auto.
+    - destruct Hph as (-> & -> & ->).
+      split; [|now rewrite emit_text_channel].
+      split; [reflexivity|]. exists d1. split; [exact Hd1|]. cbn zeta.
+      cbn [sh_args sh_dict sh_tcd sh_prof sh_shapes]. auto.
+    - destruct Hph as (-> & ->).
+      split; [|now rewrite emit_text_channel].
+      split; [reflexivity|]. exists d1. split; [exact Hd1|]. cbn zeta.
+      cbn [sh_args sh_dict sh_tcd sh_prof sh_shapes]. auto.
+    - subst sd.
+      split; [|now rewrite emit_text_channel].
+      split; [reflexivity|]. exists d1. split; [exact Hd1|]. cbn zeta.
+      cbn [sh_args sh_dict sh_tcd sh_prof sh_shapes]. auto.
   Qed.
 
-  (** constructing a Shaper on a dictionary object nobody else holds *)
-  Lemma do_new_fresh ctors trs st a da d :
-    inv ctors trs st -> dict_arg_ok da = true -> dict_value [] da = Some d ->
-    exists st', do_new args tcd prof shapes a_shapes_ns rand fuel st a da = (st', ONew) /\
-                inv (ctors ++ [(a, d)]) (trs ++ [mkTrack None false 0 (mutatingM a)]) st'.
+  Lemma inv_update origs ctors st i a d0 s' :
+    inv origs ctors st -> nth_error ctors i = Some (a, d0) -> shaper_ok a d0 s' ->
+    inv origs ctors (mkState (cdicts st) (set_nth i s' (shapers st)) false).
   Proof.
-    intros (Hdead & Hl1 & Hl2 & Hl3 & Hall) Hok Hval.
-    assert (Hpf : prio_free d = true).
-    { destruct da; cbn in Hok, Hval; try discriminate; inversion Hval; subst; exact Hok. }
-    destruct (prio_free_find d Hpf) as (p & Hp).
-    assert (Hdo : do_new args tcd prof shapes a_shapes_ns rand fuel st a da =
-                  (mkState (store st ++ [dset d (a_shapes_ns a) p])
-                           (shapers st ++ [mkShaper a (List.length (store st)) None None None]) false, ONew)).
-    { unfold do_new, ctor_dict.
-      destruct da as [|dd|j]; cbn in Hok, Hval; try discriminate; inversion Hval; subst d;
-        rewrite nth_error_app_last, Hp, set_nth_app_last; reflexivity. }
-    eexists. split; [exact Hdo|].
-    split; [reflexivity|]. cbn [shapers store]. rewrite !app_length. cbn [List.length].
+    intros (Hd & Hc & Hl & Hall) Hi Hok.
+    pose proof (nth_error_Some_lt _ _ _ Hi) as Hlt.
+    split; [reflexivity|]. cbn [cdicts shapers]. rewrite set_nth_length.
+    repeat split; auto.
+    intros j a' d0' Hj. destruct (Nat.eq_dec i j) as [->|Hne].
+    - rewrite Hi in Hj. inversion Hj; subst a' d0'.
+      exists s'. rewrite nth_error_set_nth_same by lia. auto.
+    - destruct (Hall j a' d0' Hj) as (s & H1 & H2).
+      exists s. rewrite nth_error_set_nth_other by auto. auto.
+  Qed.
+
+  Lemma inv_new origs ctors st a d d1 :
+    inv origs ctors st -> ctor_dict args a_shapes_ns rand fuel a d = Some d1 ->
+    forall origs', inv origs' (ctors ++ [(a, d)])
+                       (mkState origs' (shapers st ++ [mkShaper a d1 None None None]) false).
+  Proof.
+    intros (Hd & Hc & Hl & Hall) Hd1 origs'.
+    split; [reflexivity|]. cbn [cdicts shapers]. rewrite !app_length. cbn [List.length].
     repeat split; try lia.
     intros i a' d0' Hi.
     destruct (Nat.lt_ge_cases i (List.length ctors)) as [Hlt|Hge].
     - rewrite nth_error_app1 in Hi by lia.
-      destruct (Hall i a' d0' Hi) as (tr & s & dd & H1 & H2 & H3 & H4 & H5).
-      exists tr, s, dd. rewrite !nth_error_app1 by lia. auto.
+      destruct (Hall i a' d0' Hi) as (s & H1 & H2).
+      exists s. rewrite nth_error_app1 by lia. auto.
     - assert (i = List.length ctors).
       { apply nth_error_Some_lt in Hi. rewrite app_length in Hi. cbn in Hi. lia. }
       subst i. rewrite nth_error_app2 in Hi by lia. rewrite Nat.sub_diag in Hi. cbn in Hi.
       inversion Hi; subst a' d0'.
-      exists (mkTrack None false 0 (mutatingM a)), (mkShaper a (List.length (store st)) None None None),
-             (dset d (a_shapes_ns a) p).
-      rewrite <- Hl2 at 1. rewrite <- Hl1 at 1. rewrite <- Hl3 at 1. rewrite !nth_error_app_last.
-      repeat split; auto.
-      exists (dset d (a_shapes_ns a) p). unfold ctor_dict. rewrite Hp. cbn. auto.
+      exists (mkShaper a d1 None None None). rewrite <- Hl. rewrite nth_error_app_last.
+      split; [reflexivity|]. split; [reflexivity|]. exists d1. split; [exact Hd1|]. reflexivity.
   Qed.
 
-  Lemma dict_value_origs origs da : dict_arg_ok da = true -> dict_value origs da = dict_value [] da.
-  Proof. destruct da; cbn; [reflexivity | reflexivity | discriminate]. Qed.
-
-  Lemma run_from_spec h : forall origs ctors trs st,
-    inv ctors trs st -> dom_fromM trs h = true ->
+  Lemma run_from_spec h : forall origs ctors st,
+    inv origs ctors st -> wf_from args thr origs (List.length ctors) h = true ->
     fst (run_fromM st h) = spec_fromM origs ctors h.
   Proof.
-    induction h as [|o h IH]; intros origs ctors trs st Hinv Hdom; [reflexivity|].
+    induction h as [|o h IH]; intros origs ctors st Hinv Hwf; [reflexivity|].
     cbn [run_from]. unfold step.
-    pose proof Hinv as (Hdead & _). rewrite Hdead.
-    destruct o as [a da | i f k t | i k]; cbn [dom_from] in Hdom.
+    pose proof Hinv as (Hdead & Hcd & Hlen & Hall). rewrite Hdead.
+    destruct o as [a da | i f k t | i k]; cbn [wf_from] in Hwf.
     - (* New *)
-      apply andb_true_iff in Hdom as [Hda Hdom].
-      cbn [spec_from]. rewrite (dict_value_origs origs da Hda).
-      destruct (dict_value [] da) as [d|] eqn:Hval; [|destruct da; discriminate].
-      destruct (do_new_fresh ctors trs st a da d Hinv Hda Hval) as (st' & Hdo & Hinv').
-      rewrite Hdo.
-      specialize (IH (match da with DShared _ => origs | _ => origs ++ [d] end) _ _ _ Hinv' Hdom).
-      destruct (run_fromM st' h) as [outs stf]. cbn in IH |- *. now rewrite IH.
+      cbn [spec_from]. unfold do_new, dict_value.
+      destruct da as [|d|j].
+      + apply andb_true_iff in Hwf as [Hpf Hwf].
+        destruct (prio_free_find [] Hpf) as (p & Hp).
+        unfold ctor_dict at 1. rewrite Hp.
+        assert (Hd1 : ctor_dict args a_shapes_ns rand fuel a [] = Some (dset [] (a_shapes_ns a) p))
+          by (unfold ctor_dict; now rewrite Hp).
+        pose proof (inv_new origs ctors st a [] _ Hinv Hd1 (origs ++ [[]])) as Hinv'.
+        rewrite Hcd.
+        assert (Hl' : List.length (ctors ++ [(a, @nil (str * str))]) = S (List.length ctors))
+          by (rewrite app_length; cbn; lia).
+        rewrite <- Hl' in Hwf.
+        specialize (IH _ _ _ Hinv' Hwf).
+        destruct (run_fromM _ h) as [outs stf]. cbn in IH |- *. now rewrite IH.
+      + apply andb_true_iff in Hwf as [Hpf Hwf].
+        destruct (prio_free_find d Hpf) as (p & Hp).
+        unfold ctor_dict at 1. rewrite Hp.
+        assert (Hd1 : ctor_dict args a_shapes_ns rand fuel a d = Some (dset d (a_shapes_ns a) p))
+          by (unfold ctor_dict; now rewrite Hp).
+        pose proof (inv_new origs ctors st a d _ Hinv Hd1 (origs ++ [d])) as Hinv'.
+        rewrite Hcd.
+        assert (Hl' : List.length (ctors ++ [(a, d)]) = S (List.length ctors))
+          by (rewrite app_length; cbn; lia).
+        rewrite <- Hl' in Hwf.
+        specialize (IH _ _ _ Hinv' Hwf).
+        destruct (run_fromM _ h) as [outs stf]. cbn in IH |- *. now rewrite IH.
+      + rewrite Hcd.
+        destruct (nth_error origs j) as [d|] eqn:Hj; [|discriminate].
+        apply andb_true_iff in Hwf as [Hpf Hwf].
+        destruct (prio_free_find d Hpf) as (p & Hp).
+        unfold ctor_dict at 1. rewrite Hp.
+        assert (Hd1 : ctor_dict args a_shapes_ns rand fuel a d = Some (dset d (a_shapes_ns a) p))
+          by (unfold ctor_dict; now rewrite Hp).
+        pose proof (inv_new origs ctors st a d _ Hinv Hd1 origs) as Hinv'.
+        assert (Hl' : List.length (ctors ++ [(a, d)]) = S (List.length ctors))
+          by (rewrite app_length; cbn; lia).
+        rewrite <- Hl' in Hwf.
+        specialize (IH _ _ _ Hinv' Hwf).
+        destruct (run_fromM _ h) as [outs stf]. cbn in IH |- *. now rewrite IH.
     - (* Shex *)
-      destruct (nth_error trs i) as [tr|] eqn:Htr; [|discriminate].
-      apply andb_true_iff in Hdom as [Hcall Hdom].
-      destruct (inv_lookup _ _ _ _ _ Hinv Htr) as (a & d0 & s & d & Hc & Hs & Hd & Hns & Hok).
-      cbn [spec_from]. rewrite Hc.
-      unfold on_shaper. rewrite Hs, Hns, Hd.
-      pose proof (shex_on_ok a d0 tr s d f k t Hok Hcall) as Hstep.
-      destruct (shex_on _ _ _ _ _ _ _ _ _ _ _ _ _ s d f k t) as [[s' d'] o].
-      destruct Hstep as (Hns' & Hok' & Ho). rewrite Hns in Hns'.
-      pose proof (inv_update ctors trs st i a d0 _ s' d' Hinv Hc Hns' Hok') as Hinv'.
-      specialize (IH origs _ _ _ Hinv' Hdom).
+      apply andb_true_iff in Hwf as [Hi Hwf]. apply Nat.ltb_lt in Hi.
+      destruct (nth_error ctors i) as [[a d0]|] eqn:Hc; [|apply nth_error_None in Hc; lia].
+      destruct (Hall i a d0 Hc) as (s & Hs & Hok).
+      cbn [spec_from]. rewrite Hc. unfold on_shaper. rewrite Hs.
+      pose proof (shex_on_ok a d0 s f k t Hok) as Hstep.
+      destruct (shex_on _ _ _ _ _ _ _ _ _ _ _ _ _ _ s f k t) as [s' o].
+      destruct Hstep as (Hok' & Ho).
+      pose proof (inv_update origs ctors st i a d0 s' Hinv Hc Hok') as Hinv'.
+      specialize (IH origs _ _ Hinv' Hwf).
       destruct (run_fromM _ h) as [outs stf]. cbn in IH |- *. now rewrite IH, Ho.
     - (* Profile *)
-      destruct (nth_error trs i) as [tr|] eqn:Htr; [|discriminate].
-      destruct (inv_lookup _ _ _ _ _ Hinv Htr) as (a & d0 & s & d & Hc & Hs & Hd & Hns & Hok).
-      cbn [spec_from]. rewrite Hc.
-      unfold on_shaper. rewrite Hs, Hns, Hd.
-      pose proof (profile_on_ok a d0 tr s d k Hok) as Hstep.
-      destruct (profile_on _ _ _ _ _ _ _ _ s d k) as [[s' d'] o].
-      destruct Hstep as (Hns' & Hok' & Ho). rewrite Hns in Hns'.
-      pose proof (inv_update ctors trs st i a d0 tr s' d' Hinv Hc Hns' Hok') as Hinv'.
-      assert (Htrs : set_nth i tr trs = trs).
-      { clear -Htr. revert i Htr; induction trs as [|x l IHl]; intros [|i] H; cbn in *; try discriminate.
-        - now inversion H.
-        - f_equal. now apply IHl. }
-      rewrite Htrs in Hinv'.
-      specialize (IH origs _ _ _ Hinv' Hdom).
+      apply andb_true_iff in Hwf as [Hi Hwf]. apply Nat.ltb_lt in Hi.
+      destruct (nth_error ctors i) as [[a d0]|] eqn:Hc; [|apply nth_error_None in Hc; lia].
+      destruct (Hall i a d0 Hc) as (s & Hs & Hok).
+      cbn [spec_from]. rewrite Hc. unfold on_shaper. rewrite Hs.
+      pose proof (profile_on_ok a d0 s k Hok) as Hstep.
+      destruct (profile_on _ _ _ _ _ _ _ _ _ s k) as [s' o].
+      destruct Hstep as (Hok' & Ho).
+      pose proof (inv_update origs ctors st i a d0 s' Hinv Hc Hok') as Hinv'.
+      specialize (IH origs _ _ Hinv' Hwf).
       destruct (run_fromM _ h) as [outs stf]. cbn in IH |- *. now rewrite IH, Ho.
   Qed.
 
-  Lemma inv_init : inv [] [] (init args tcd prof shapes).
+  Lemma inv_init : inv [] [] (init args tcd prof shapes thr).
   Proof.
     split; [reflexivity|]. cbn. repeat split; auto. intros i a d0 H. destruct i; discriminate.
   Qed.
 
-  (** every call of a history in [C18_dom] answers [pure] of its own arguments, on
-      either channel; histories of any length *)
-  Theorem history_partial h :
-    C18_dom args thr a_examples thr_eqb h = true -> runM h = specM h.
-  Proof. intros H. unfold run, spec. apply (run_from_spec h [] [] [] _ inv_init H). Qed.
+  (** every call of every well-formed history answers [pure] of its own arguments, on either
+      channel; histories of any length, any number of Shapers, shared dictionaries included *)
+  Theorem history_pure h :
+    C18_dom args thr h = true -> runM h = specM h.
+  Proof. intros H. unfold run, spec. apply (run_from_spec h [] [] _ inv_init H). Qed.
 End ApiProofs.
